@@ -318,6 +318,37 @@ func kCatalogue(rng *rand.Rand, nrand int) []*big.Int {
 		add(inv) // 2^-i mod L
 		add(new(big.Int).Mod(new(big.Int).Neg(inv), L))
 	}
+	// near-golden scalars: continued fractions [0; 1 x i, q, 1, 1, ...] (one deviation from the all-ones expansion at
+	// every depth), the neighbourhood of floor(L/phi), and - for all of them and for every entry above - the
+	// non-canonical representatives k + mL below 2^255: the longest reductions live here
+	golden := new(big.Int).Div(new(big.Int).Mul(L, phiNum), phiDen)
+	for j := int64(-400); j <= 400; j++ {
+		add(new(big.Int).Add(golden, big.NewInt(j)))
+	}
+	for i := 0; i < 170; i += 1 {
+		for _, q := range []int64{2, 3, 5, 6, 9} {
+			// convergents of [0; 1 x i, q, 1, 1, ...] until the denominator exceeds L
+			hPrev, h := big.NewInt(1), big.NewInt(0)
+			kPrev, kk := big.NewInt(0), big.NewInt(1)
+			for n := 0; kk.Cmp(L) <= 0 && n < 400; n++ {
+				a := int64(1)
+				if n == i {
+					a = q
+				}
+				h, hPrev = new(big.Int).Add(new(big.Int).Mul(big.NewInt(a), h), hPrev), h
+				kk, kPrev = new(big.Int).Add(new(big.Int).Mul(big.NewInt(a), kk), kPrev), kk
+			}
+			add(new(big.Int).Div(new(big.Int).Mul(L, h), kk))
+		}
+	}
+	base := len(ks)
+	for idx := 0; idx < base; idx++ {
+		if idx%3 == 0 || idx > base-1700 {
+			for m := int64(1); m <= 7; m++ {
+				add(new(big.Int).Add(ks[idx], new(big.Int).Mul(L, big.NewInt(m))))
+			}
+		}
+	}
 	around(L)
 	around(new(big.Int).Lsh(L, 1))
 	around(new(big.Int).Sub(gen.Two255, big.NewInt(3)))
